@@ -5,6 +5,7 @@
     (base64url, JSON, '.'-splitting), Ed25519, UUID and PSSID text decoding are oracles carried
     by the input (trusted base), tied to the real code by the correspondence check. *)
 From Sci Require Import Snap.Model_C10 Snap.Spec_C10 Snap.Proofs_C10.
+From Coq Require Import Lia.
 Local Open Scope string_scope. Local Open Scope N_scope.
 
 (** The verifier accepts a token if and only if the property's sentence holds of it: EdDSA,
@@ -44,6 +45,41 @@ Proof.
 Qed.
 Print Assumptions verify_characterised.
 
+(** The sentence's second half, spelled out: a token is refused when its header does not decode
+    (wrong segment count, bad base64/JSON, "alg":"none" or any unknown algorithm name), when it
+    names another algorithm, when no trusted key verifies its signature (altered header,
+    payload or signature; untrusted signer; unknown kid), when it names a version other than
+    1, when its window ended more than 60 s ago or begins more than 60 s from now. *)
+Theorem other_tokens_refused :
+  forall (uuid_ok pssid1_ok : string -> bool) (V : verifier) (now : N) (t : token),
+    vvalidation V = snap_validation -> 60 <= now < I64_LIM ->
+    ( decode_header t = None
+      \/ (exists h, decode_header t = Some h /\ h_alg h <> EdDSA)
+      \/ (forall h k, decode_header t = Some h -> trusted_key V (h_kid h) k -> t_sig t k = false)
+      \/ (exists cl n, t_claims t = Some cl /\ jget "ver" cl = Some (JNum n) /\ n <> 1)
+      \/ (exists cl e, t_claims t = Some cl /\ jget "exp" cl = Some (JNum e) /\ e + 60 < now)
+      \/ (exists cl b, t_claims t = Some cl /\ jget "nbf" cl = Some (JNum b) /\ now + 60 < b) ) ->
+    forall c, verify uuid_ok pssid1_ok V now t <> Accept c.
+Proof.
+  intros uo po V now t HV Hr Hcase c Hacc.
+  assert (SpecAcceptLoose uo po V now t) as S
+    by (apply (verify_characterised uo po V now t HV Hr); exists c; exact Hacc).
+  destruct S as (h & cl & Hh & Hcl & Ha & (k & Hk & Hs) & ((Hv & _) & Haud & (e & He & Hle) & Hn)).
+  destruct Hcase as [H|[(h' & H & Hne)|[H|[(cl' & n & H1 & H2 & H3)|[(cl' & e' & H1 & H2 & H3)|(cl' & b & H1 & H2 & H3)]]]]].
+  - congruence.
+  - rewrite Hh in H. inversion H; subst. contradiction.
+  - rewrite (H h k Hh Hk) in Hs. discriminate.
+  - rewrite Hcl in H1. inversion H1; subst cl'. destruct Hv as [(Habs & _)|(Hver & _)].
+    + unfold absent in Habs. congruence.
+    + unfold claim in Hver. rewrite H2 in Hver. inversion Hver. contradiction.
+  - rewrite Hcl in H1. inversion H1; subst cl'. unfold SPEC_LEEWAY in *.
+    destruct He as [n Hc Hlt|r Hc]; unfold claim in Hc; rewrite H2 in Hc; inversion Hc; subst. lia.
+  - rewrite Hcl in H1. inversion H1; subst cl'. unfold SPEC_LEEWAY in *.
+    destruct Hn as [Habs|(b' & Hb & Hle')]; [unfold absent in Habs; congruence|].
+    destruct Hb as [n Hc Hlt|r Hc]; unfold claim in Hc; rewrite H2 in Hc; inversion Hc; subst. lia.
+Qed.
+Print Assumptions other_tokens_refused.
+
 (** The registration lifetime granted by register_snaptun_identity_handler at handler time
     now2 is exactly exp - now2 for the token's own "exp" claim: it never exceeds the token's
     remaining lifetime (and is refused once exp < now2, even inside the leeway). *)
@@ -80,3 +116,6 @@ Proof. vm_compute. reflexivity. Qed.
 Example ex_other_key :
   verify (fun _ => true) (fun _ => true) (mkVerifier 8 None snap_validation) 2000 (ex_tok 1000 3000) = Reject ESig.
 Proof. vm_compute. reflexivity. Qed.
+Example ex_alg_none :
+  decode_header (mkToken (Some (mkRawHeader None HAbsent (HStr "JWT"))) (t_claims (ex_tok 1000 3000)) (fun _ => true)) = None.
+Proof. reflexivity. Qed.
